@@ -180,6 +180,7 @@ var props = map[string]propDef{
 	"C10": {"C10", "proxy", 40, 600, "W-proxy", 0},
 	"C05": {"C05", "lb", 30, 600, "W-lb", 200},
 	"C06": {"C06", "lb", 30, 600, "W-lb", 50},
+	"C16": {"C16", "health", 30, 600, "W-health", 100},
 }
 
 // ---- known findings ----
